@@ -1282,7 +1282,7 @@ class Vars:
             upper = upper.reshape((upper.size, ))
             indices = np.arange(self.first, self.first + self.size,
                                 dtype=np.int32)
-            return Bounds(self.model, indices, upper, 'U')
+            return Bounds(self.model, indices, upper, 'U', self.shape)
         else:
             return self.to_affine() <= other
 
@@ -1295,7 +1295,7 @@ class Vars:
             lower = lower.reshape((lower.size, ))
             indices = np.arange(self.first, self.first + self.size,
                                 dtype=np.int32)
-            return Bounds(self.model, indices, lower, 'L')
+            return Bounds(self.model, indices, lower, 'L', self.shape)
         else:
             return self.to_affine() >= other
 
@@ -1439,7 +1439,8 @@ class VarSub(Vars):
             indices = self.indices.reshape((self.indices.size, ))
             bound_indices = upper.indices.reshape((upper.indices.size, ))[indices]
             bound_values = upper.values.reshape(upper.values.size)[indices]
-            return Bounds(upper.model, bound_indices, bound_values, 'U')
+            return Bounds(upper.model, bound_indices, bound_values, 'U',
+                          self.indices.shape)
         else:
             return self.to_affine().__le__(other)
 
@@ -1450,7 +1451,8 @@ class VarSub(Vars):
             indices = self.indices.reshape((self.indices.size, ))
             bound_indices = lower.indices.reshape((lower.indices.size, ))[indices]
             bound_values = lower.values.reshape((lower.indices.size, ))[indices]
-            return Bounds(lower.model, bound_indices, bound_values, 'L')
+            return Bounds(lower.model, bound_indices, bound_values, 'L',
+                          self.indices.shape)
         else:
             return self.to_affine().__ge__(other)
 
@@ -2366,7 +2368,7 @@ class Affine:
         if isinstance(left, Affine) and not isinstance(left, DecAffine):
             return LinConstr(left.model, left.linear,
                              -left.const.reshape((left.const.size, )),
-                             np.zeros(left.const.size))
+                             np.zeros(left.const.size), shape=left.shape)
         else:
             return left.__le__(0)
 
@@ -2376,7 +2378,7 @@ class Affine:
         if isinstance(left, Affine) and not isinstance(left, DecAffine):
             return LinConstr(left.model, left.linear,
                              -left.const.reshape((left.const.size,)),
-                             np.zeros(left.const.size))
+                             np.zeros(left.const.size), shape=left.shape)
         else:
             return left.__le__(0)
 
@@ -2386,7 +2388,7 @@ class Affine:
         if isinstance(left, Affine) and not isinstance(left, DecAffine):
             return LinConstr(left.model, left.linear,
                              -left.const.reshape((left.const.size,)),
-                             np.ones(left.const.size))
+                             np.ones(left.const.size), shape=left.shape)
         else:
             return left.__eq__(0)
 
@@ -3054,7 +3056,7 @@ class LinConstr:
     The LinConstr class creates an array of linear constraints.
     """
 
-    def __init__(self, model, linear, const, sense, sign=1):
+    def __init__(self, model, linear, const, sense, sign=1, shape=None):
 
         self.model = model
         self.linear = linear
@@ -3062,6 +3064,7 @@ class LinConstr:
         self.sense = sense
         self.sign = sign
         self.index = None
+        self.shape = shape
 
     def __repr__(self):
 
@@ -3089,6 +3092,9 @@ class LinConstr:
             dual_sol = solution.y['pi'][self.model.ciarray == cidx] * self.model.sign
             if dual_sol.size == 1:
                 dual_sol = dual_sol.item()
+            elif (self.shape is not None and
+                    dual_sol.size == int(np.prod(self.shape))):
+                dual_sol = dual_sol.reshape(self.shape)
 
             return dual_sol
 
@@ -3172,12 +3178,13 @@ class Bounds:
     The Bounds class creates an object for upper or lower bounds.
     """
 
-    def __init__(self, model, indices, values, btype):
+    def __init__(self, model, indices, values, btype, shape=None):
 
         self.model = model
         self.indices = indices
         self.values = values
         self.btype = btype
+        self.shape = shape
 
     def dual(self):
 
@@ -3204,6 +3211,9 @@ class Bounds:
 
             if output.size == 1:
                 output = output.item()
+            elif (self.shape is not None and
+                    output.size == int(np.prod(self.shape))):
+                output = output.reshape(self.shape)
 
             return output
 
